@@ -565,6 +565,8 @@ def run(ctx):
 
 
 def replay(ctx, rec):
+    if isinstance(rec, list):          # a corpus file holds several records
+        return [replay(ctx, r) for r in rec]
     s = unhx(rec['case']['hex'])
     io, again = impl_case(s)
     mo = lib.run_model(['path ' + hx(s)])[0]
